@@ -2,6 +2,7 @@
 //! Runs the real crate on generated inputs and writes cases / observations for the Coq model to re-evaluate.
 mod c07;
 mod c08;
+mod c11;
 mod gen;
 mod out;
 mod rng;
@@ -63,6 +64,7 @@ fn main() {
     match prop.as_str() {
         "C07" => c07::run(seed, count, &mut out, &tmp),
         "C08" => c08::run(seed, count, thorough, &mut out),
+        "C11" => c11::run(seed, count, thorough, &mut out),
         other => {
             eprintln!("unknown property {other}");
             std::process::exit(2);
